@@ -174,6 +174,21 @@ def main():
             if got != exp:
                 fail('comparison of datetimes does not compare instants '
                      '(<, <=, >, >=, =, !=)', a=a, b=b, got=got, expected=exp)
+    # the same instant written at another offset: equal, not different,
+    # ordered both ways
+    for a in pick:
+        for o in offsets():
+            if not (2 <= a.year <= 9998):
+                continue
+            cases += 1
+            b = a.astimezone(tz.tzoffset(None, int(o.total_seconds())))
+            got = [ev('$a %s $b' % op, a=a, b=b)
+                   for op in ('=', '!=', '<=', '>=', '<', '>')]
+            if got != [True, False, True, True, False, False]:
+                fail('one instant at two offsets does not compare equal '
+                     '(=, !=, <=, >=, <, >)', a=a, b=b, got=got)
+            if ev('$a - $b', a=a, b=b) != TD(0):
+                fail('one instant at two offsets: a - b != 0', a=a, b=b)
     # the long differences of the calendar, exactly
     lo = DT(1, 1, 2, tzinfo=UTC)
     hi = DT(9999, 12, 30, 23, 59, 59, 999999, tzinfo=UTC)
